@@ -19,7 +19,7 @@ static const u32_t S = iobuffer::sum;
 static const u32_t NB = iobuffer::BUF_SZ;
 
 // ---- configuration ----------------------------------------------------------------------------------
-static int Tn = 2, ENC = 1, COARSE = 0, CMODE = 1, HMODE = 0, RAWDEC = 0;
+static int Tn = 2, ENC = 1, COARSE = 0, CMODE = 1, HMODE = 0, RAWDEC = 0, HINT0 = 0; // HINT0: the size argument (progress display; 0 = unknown, as for a FIFO) is given as 0
 static std::string SCEN = "pipe";
 static Bytes IN, EXP;
 static const u8_t KEY[16] = {0x00, 0x11, 0x22, 0x33, 0x44, 0x55, 0x66, 0x77, 0x88, 0x99, 0xaa, 0xbb, 0xcc, 0xdd, 0xee, 0xff};
@@ -234,6 +234,9 @@ static void pre_fatal(int code) {
   }
   if (!ab.empty()) *g_obsp = "running;abandoned=" + ab;
 }
+// set_buffergroup(T, in, out, direction) - or, after a refactoring that hands the pipeline a size estimate, with one more integer argument
+template <class G> static auto call_set_buffergroup(G *g, FILE *fi, FILE *fo, int) -> decltype(g->set_buffergroup(Tn, fi, fo, (bool)ENC), void()) { g->set_buffergroup(Tn, fi, fo, (bool)ENC); }
+template <class G> static auto call_set_buffergroup(G *g, FILE *fi, FILE *fo, long) -> decltype(g->set_buffergroup(Tn, fi, fo, (bool)ENC, (u64_t)0), void()) { g->set_buffergroup(Tn, fi, fo, (bool)ENC, (u64_t)(HINT0 ? 0 : IN.size())); }
 static void scenario_pipe(std::string &obs) {
   g_obsp = &obs;
   vx::g_pre_fatal = pre_fatal;
@@ -252,7 +255,7 @@ static void scenario_pipe(std::string &obs) {
   g_fin = fi;
   g_out_hash = 0;
   if (STATEFUL) setvbuf(fo, NULL, _IONBF, 0);
-  buffergroup::get_instance()->set_buffergroup(Tn, fi, fo, ENC);
+  call_set_buffergroup(buffergroup::get_instance(), fi, fo, 0);
   vs_group_of = group_of;
   vs_fp_of = fp_of_pthread_op;
   vs_obs_hash = obs_hash;
@@ -313,7 +316,7 @@ static void scenario_e2e(std::string &obs) {
     vs_obs_hash = obs_hash;
     obs = "running";
     vs_begin();
-    ok = ENC ? r.execute_encrypt(IN.size(), seed) : r.execute_decrypt(IN.size());
+    ok = ENC ? r.execute_encrypt(HINT0 ? 0 : IN.size(), seed) : r.execute_decrypt(HINT0 ? 0 : IN.size());
     vs_end();
   }
   sil.off();
@@ -364,6 +367,7 @@ int main(int argc, char **argv) {
   STREAMPOINTS = (int)a.num("instr", 0);
   RAWDEC = (int)a.num("rawdec", 0); // decrypt direction on a raw body of exactly `len` bytes (need not be a multiple of 16): output is unspecified, termination and ownership are not
   CMODE = (int)a.num("cmode", 1);
+  HINT0 = (int)a.num("hint0", 0);
   HMODE = (int)a.num("hmode", 0);
   vx::Config cfg;
   cfg.bound = (int)a.num("bound", 2);
@@ -395,7 +399,7 @@ int main(int argc, char **argv) {
     if (ENC) { IN = P; EXP = F; } else { IN = F; EXP = P; }
     sc = scenario_e2e;
   }
-  std::string cfgname = SCEN + ":T=" + std::to_string(Tn) + ",len=" + std::to_string(len) + ",enc=" + std::to_string(ENC) + ",S=" + std::to_string(S) + (RAWDEC ? ",rawbody" : "") + (STREAMPOINTS ? ",stream-code-points" : "") + (SCEN == "e2e" ? ",cmode=" + std::to_string(CMODE) : "") + (COARSE == 1 ? ",medium" : COARSE == 2 ? ",coarse" : "") + (cfg.stateful ? std::string(",state-matching") : cfg.sleep ? ",sleepsets" : (cfg.delay ? ",delaybound=" : ",bound=") + std::to_string(cfg.bound)) + (cfg.spurious ? ",spurious=" + std::to_string(cfg.spurious) : "");
+  std::string cfgname = SCEN + ":T=" + std::to_string(Tn) + ",len=" + std::to_string(len) + ",enc=" + std::to_string(ENC) + ",S=" + std::to_string(S) + (RAWDEC ? ",rawbody" : "") + (STREAMPOINTS ? ",stream-code-points" : "") + (SCEN == "e2e" ? ",cmode=" + std::to_string(CMODE) : "") + (HINT0 ? ",size-argument=0" : "") + (COARSE == 1 ? ",medium" : COARSE == 2 ? ",coarse" : "") + (cfg.stateful ? std::string(",state-matching") : cfg.sleep ? ",sleepsets" : (cfg.delay ? ",delaybound=" : ",bound=") + std::to_string(cfg.bound)) + (cfg.spurious ? ",spurious=" + std::to_string(cfg.spurious) : "");
 
   if (a.has("dumpparts")) { // debugging aid for the state abstraction: run the default schedule twice and print the per-point hash components
     for (int k = 0; k < 2; k++) { vx::Exec x = vx::run_one(a.list("prefix"), cfg, sc); for (size_t i = 0; i < x.pts.size(); i++) printf("run%d pt%zu t%d ops=%016lx pc=%016lx mu=%016lx obs=%016lx\n", k, i, x.pts[i].chosen_tid, x.parts[4 * i], x.parts[4 * i + 1], x.parts[4 * i + 2], x.parts[4 * i + 3]); }
@@ -434,7 +438,7 @@ int main(int argc, char **argv) {
         if (x.outcome == vx::OC_TIMEOUT && y.outcome != vx::OC_TIMEOUT) { reported[k]--; continue; } // slow machine, not a hang
         bool same = false;
         for (auto &e2 : classify_all(y)) if (e2.prop == e.prop && e2.key == e.key) same = true;
-        std::string rargs = "T=" + std::to_string(Tn) + " len=" + std::to_string(len) + " enc=" + std::to_string(ENC) + " scenario=" + SCEN + " cmode=" + std::to_string(CMODE) + " hmode=" + std::to_string(HMODE) + " coarse=" + std::to_string(COARSE) + " rawdec=" + std::to_string(RAWDEC) + " instr=" + std::to_string(STREAMPOINTS) + " spurious=" + std::to_string(cfg.spurious) + " sleep=" + std::to_string(cfg.sleep ? 1 : 0) + " stateful=" + std::to_string(STATEFUL) + " prop=" + e.prop + " bufsz=" + std::to_string(NB);
+        std::string rargs = "T=" + std::to_string(Tn) + " len=" + std::to_string(len) + " enc=" + std::to_string(ENC) + " scenario=" + SCEN + " cmode=" + std::to_string(CMODE) + " hmode=" + std::to_string(HMODE) + " hint0=" + std::to_string(HINT0) + " coarse=" + std::to_string(COARSE) + " rawdec=" + std::to_string(RAWDEC) + " instr=" + std::to_string(STREAMPOINTS) + " spurious=" + std::to_string(cfg.spurious) + " sleep=" + std::to_string(cfg.sleep ? 1 : 0) + " stateful=" + std::to_string(STATEFUL) + " prop=" + e.prop + " bufsz=" + std::to_string(NB);
         J().s("t", "viol").s("prop", e.prop).s("key", e.key).s("desc", "[" + cfgname + "] " + e.desc + " | deviations=" + std::to_string(vx::deviations_of(x)) + (same ? " | replayed: same verdict" : " | REPLAY DIFFERS: " + vkeys(classify_all(y))))
             .raw("replay", J().s("harness", "pipe_explore").s("args", rargs).raw("schedule", jarr(ch)).n("bufsz", NB).str()).bo("confirmed", same).emit();
       }
